@@ -100,11 +100,11 @@ class LangGen:
             cats = cats[:1]
         self.spec = spec
         self._gen_assocs()
-        self.lang = Lang(spec)           # structure so far (assets + associations)
+        self.lang = Lang(spec, snapshot=False)           # structure so far (assets + associations)
         self._gen_step_skeleton()
-        self.lang = Lang(spec)
+        self.lang = Lang(spec, snapshot=False)
         self._gen_variables()
-        self.lang = Lang(spec)
+        self.lang = Lang(spec, snapshot=False)
         self._gen_expressions()
         return spec
 
@@ -126,7 +126,7 @@ class LangGen:
             n = 1
         assoc_names = []
         fld = 0
-        tmp = Lang(spec)
+        tmp = Lang(spec, snapshot=False)
         for i in range(n):
             l, r = rng.choice(names), rng.choice(names)
             if rng.random() < 0.35:
@@ -241,7 +241,7 @@ class LangGen:
         for t in order:
             a = next(x for x in spec['assets'] if x['name'] == t)
             for _ in range(rng.choice([0, 0, 1, 1, 2])):
-                self.lang = Lang(spec)
+                self.lang = Lang(spec, snapshot=False)
                 e = self._gen_nav(t, rng.randint(0, cfg.max_depth), allow_var=True)
                 if e is None:
                     continue
@@ -251,7 +251,7 @@ class LangGen:
     # ------------------------------------------------------------------
     def _gen_expressions(self):
         rng, cfg, spec = self.rng, self.cfg, self.spec
-        lang0 = Lang(spec)
+        lang0 = Lang(spec, snapshot=False)
         order = sorted(lang0.order, key=lambda t: lang0.depth(t))
         for t in order:
             a = next(x for x in spec['assets'] if x['name'] == t)
@@ -295,7 +295,7 @@ class LangGen:
         p = self.lang.parent[t]
         if p is None:
             return None
-        return Lang(self.spec).steps(p).get(sname)
+        return Lang(self.spec, snapshot=False).steps(p, copy_result=False).get(sname)
 
     # ---- type-directed expression generation ---------------------------------
     def _gen_nav(self, t, depth, allow_var=True):
@@ -395,7 +395,7 @@ class LangGen:
 
     def _step_names_on(self, ty):
         """names of steps (defined or inherited) on type ty, from the skeleton"""
-        return list(Lang(self.spec).steps(ty).keys())
+        return Lang(self.spec, snapshot=False).step_names(ty)
 
     def _gen_reach(self, t):
         """a reaches expression from context type t ending in an attack step"""
